@@ -1,1 +1,622 @@
-//! C17 - not built yet
+//! C17 - pipelines are selected and compiled independently.
+//!
+//! Differential monitor per target. For a file F with pipeline definitions P_1..P_n (n in 0..4):
+//!   (a) compile(F, all)            -> exactly n results in source order (n == 0: a rendered error)
+//!   (b) compile(F, name = P_i)     -> exactly one result, equal to result i of (a)
+//!   (c) compile(F_i, all)          -> exactly one result, equal to result i of (a); F_i is F with every OTHER
+//!                                      pipeline definition blanked out (functions and resources stay, and so do
+//!                                      all line numbers)
+//!   (d) compile(F, name = unknown) -> a rendered error, never a result or a panic
+//!   (e) compile(F, no-pipeline)    -> exactly one result regardless of n
+//! "Equal" = everything the caller can observe: source text, stages, metadata, pipeline state.
+//! When (a) fails as a whole (rssl returns the first error), (b) and (c) are compared with each other and the
+//! failure of (a) has to be explained by at least one pipeline that also fails alone.
+//!
+//! The only model used besides the differential comparison is read off the text of the pipeline definition
+//! itself: which stages it lists (and the numthreads attribute of the functions it names) - that is what result
+//! i of (a) has to report, which pins "source order" down independently of rssl.
+
+// The generator is src/gen/c17_pipelines.rs; it is included by path so that this file builds whether or not gen/mod.rs lists it
+#[path = "../gen/c17_pipelines.rs"]
+mod gen;
+
+use crate::json::Json;
+use crate::report::{Ctx, Report};
+use crate::rng::{hash_str, Rng};
+use crate::rs::{self, Mode, Opts, Outcome, Pipe, Tgt, ALL_TARGETS};
+use crate::CheckDef;
+
+pub fn def() -> CheckDef {
+    CheckDef {
+        id: "C17",
+        salt: 0xC17,
+        rule: "generated files (gen::c17_pipelines) with 0-4 pipeline definitions drawn from compute, vertex+pixel, mesh+pixel, \
+               task+mesh+pixel and task+mesh, which share or do not share entry points, helper functions, static/groupshared globals, \
+               cbuffers and resources of 21 object kinds with implicit bind groups (-> DefaultBindGroup of the pipeline), register(spaceN), \
+               [[rssl::bind_group(N)]], explicit slots, arrays, bindless arrays and static samplers; declarations before, between and \
+               after the pipeline definitions; graphics state (render target/depth formats, cull mode, winding, blend state); pipeline \
+               names which are prefixes and case variants of each other; 1 file in ~16 with >= 2 pipelines repeats a pipeline name \
+               (hostile; only 'no panic' and the result count are demanded there). Each file x 4 targets x {all, every name, 3 unknown \
+               names (a proper prefix of a name, a name with a suffix, and one of: empty / other case / unrelated), no-pipeline mode, \
+               every single-pipeline variant of the file}. evaluations = calls of compile() observed; distinct_nontrivial = distinct \
+               files (content hash) accepted by the front end for which the comparisons were made",
+        assumptions: &[
+            "a pipeline definition is removed from a file by blanking its lines, so diagnostics keep their positions; a namespace that only wraps that pipeline definition is blanked with it",
+            "the stages a result must report are read off the text of the pipeline definition (XShader properties and the numthreads attribute of the named function); entry point names are not demanded",
+            "panics which occur identically with and without the other pipelines are property C08's business and are counted, not reported here",
+        ],
+        min_distinct: (300, 5000),
+        deadline_s: (50.0, 540.0),
+        run,
+        replay,
+    }
+}
+
+// ------------------------------------------------------------------------------------------------
+// taking a file apart
+
+#[derive(Clone, Debug)]
+pub struct Block {
+    /// byte range of the lines of the definition (including a wrapping `namespace PNs..`)
+    pub start: usize,
+    pub end: usize,
+    pub name: String,
+    /// stage kinds in the order the definition lists them, with the entry function named
+    pub stages: Vec<(String, String)>,
+}
+
+/// Find the pipeline definitions of a file written in the generator's shape: a line starting with `Pipeline <name>`
+/// up to the next line that is exactly `}`; optionally wrapped into `namespace PNs..` ... `} // end PNs`.
+pub fn split_pipelines(text: &str) -> Vec<Block> {
+    let mut blocks = Vec::new();
+    let mut pos = 0usize;
+    let mut lines: Vec<(usize, &str)> = Vec::new();
+    for line in text.split_inclusive('\n') {
+        lines.push((pos, line));
+        pos += line.len();
+    }
+    let mut i = 0;
+    while i < lines.len() {
+        let (start, line) = lines[i];
+        let wrapped = line.starts_with("namespace PNs");
+        if wrapped || line.starts_with("Pipeline ") {
+            let mut name = String::new();
+            let mut stages = Vec::new();
+            let mut j = i;
+            let mut end = text.len();
+            while j < lines.len() {
+                let l = lines[j].1;
+                let t = l.trim_end();
+                if let Some(rest) = t.strip_prefix("Pipeline ") {
+                    name = rest.trim().to_string();
+                }
+                let tt = t.trim_start();
+                for stage in ["Compute", "Vertex", "Pixel", "Mesh", "Task"] {
+                    if let Some(rest) = tt.strip_prefix(&format!("{}Shader = ", stage)) {
+                        stages.push((stage.to_string(), rest.trim_end_matches(';').trim().to_string()));
+                    }
+                }
+                let closes = if wrapped { t == "} // end PNs" } else { t == "}" };
+                if closes && j > i {
+                    end = lines[j].0 + l.len();
+                    break;
+                }
+                j += 1;
+            }
+            blocks.push(Block { start, end, name, stages });
+            i = j + 1;
+        } else {
+            i += 1;
+        }
+    }
+    blocks
+}
+
+/// The file with every pipeline definition except `keep` blanked out (line structure preserved)
+pub fn without_others(text: &str, blocks: &[Block], keep: Option<usize>) -> String {
+    let mut out = String::with_capacity(text.len());
+    let mut pos = 0;
+    for (i, b) in blocks.iter().enumerate() {
+        out.push_str(&text[pos..b.start]);
+        if Some(i) == keep {
+            out.push_str(&text[b.start..b.end]);
+        } else {
+            for c in text[b.start..b.end].chars() {
+                if c == '\n' {
+                    out.push('\n');
+                }
+            }
+        }
+        pos = b.end;
+    }
+    out.push_str(&text[pos..]);
+    out
+}
+
+/// numthreads attribute of a function, read off the text: attribute lines directly above `void <name>(`
+fn numthreads_of(text: &str, function: &str) -> Option<(u32, u32, u32)> {
+    let lines: Vec<&str> = text.lines().collect();
+    let needle = format!(" {}(", function);
+    let at = lines.iter().position(|l| !l.starts_with(' ') && !l.starts_with('[') && l.contains(&needle))?;
+    let mut i = at;
+    while i > 0 && lines[i - 1].starts_with('[') {
+        i -= 1;
+        if let Some(rest) = lines[i].strip_prefix("[numthreads(") {
+            let inner = rest.split(')').next()?;
+            let v: Vec<u32> = inner.split(',').filter_map(|p| p.trim().parse().ok()).collect();
+            if v.len() == 3 {
+                return Some((v[0], v[1], v[2]));
+            }
+        }
+    }
+    None
+}
+
+// ------------------------------------------------------------------------------------------------
+// comparing
+
+/// First observable field in which two results differ
+fn differing_field(a: &Pipe, b: &Pipe) -> Option<(&'static str, String, String)> {
+    if a.source != b.source {
+        let mut la = a.source.lines();
+        let mut lb = b.source.lines();
+        loop {
+            match (la.next(), lb.next()) {
+                (Some(x), Some(y)) if x == y => continue,
+                (x, y) => return Some(("source", x.unwrap_or("<end of text>").to_string(), y.unwrap_or("<end of text>").to_string())),
+            }
+        }
+    }
+    if a.stages != b.stages {
+        return Some(("stages", format!("{:?}", a.stages), format!("{:?}", b.stages)));
+    }
+    let (ma, mb) = (format!("{:?}", a.metadata), format!("{:?}", b.metadata));
+    if ma != mb {
+        return Some(("metadata", ma, mb));
+    }
+    if a.pipeline_state != b.pipeline_state {
+        return Some(("state", a.pipeline_state.clone(), b.pipeline_state.clone()));
+    }
+    None
+}
+
+fn outcome_json(o: &Outcome) -> Json {
+    Json::str(o.observable())
+}
+
+fn diag_class(d: &str) -> String {
+    let first = d.lines().next().unwrap_or("");
+    let msg = first.split("error:").nth(1).unwrap_or(first).trim();
+    let mut out = String::new();
+    for c in msg.chars() {
+        if c == '\'' || c == '`' || c == '(' || c == '{' || c.is_ascii_digit() {
+            break;
+        }
+        out.push(c);
+    }
+    out.trim().chars().take(60).collect()
+}
+
+/// Unknown names to ask for: a proper prefix of a real name, a real name with a suffix, and one more
+fn unknown_names(names: &[String], salt: u64) -> Vec<String> {
+    let mut out: Vec<String> = Vec::new();
+    let known = |s: &str| names.iter().any(|n| n == s);
+    let push = |s: String, out: &mut Vec<String>| {
+        if !known(&s) && !out.contains(&s) {
+            out.push(s);
+        }
+    };
+    if !names.is_empty() {
+        let a = &names[(salt as usize) % names.len()];
+        let b = &names[(salt as usize / 7) % names.len()];
+        if a.len() > 1 {
+            push(a[..a.len() - 1].to_string(), &mut out);
+        }
+        push(format!("{}{}", b, if salt % 2 == 0 { "X" } else { "1" }), &mut out);
+        match salt % 3 {
+            0 => push(String::new(), &mut out),
+            1 => {
+                let flipped: String = a.chars().map(|c| if c.is_ascii_uppercase() { c.to_ascii_lowercase() } else { c.to_ascii_uppercase() }).collect();
+                push(flipped, &mut out);
+            }
+            _ => push("NoSuchPipeline".to_string(), &mut out),
+        }
+    } else {
+        push("Main".to_string(), &mut out);
+        if salt % 2 == 0 {
+            push(String::new(), &mut out);
+        }
+    }
+    out
+}
+
+struct Case<'a> {
+    text: &'a str,
+    target: Tgt,
+    origin: &'a str,
+}
+
+impl Case<'_> {
+    fn witness(&self, what: Json) -> Json {
+        Json::obj().set("origin", self.origin).set("target", self.target.name()).set("text", self.text).set("observed", what)
+    }
+}
+
+fn family(t: Tgt) -> &'static str {
+    if t.is_hlsl() {
+        "hlsl"
+    } else {
+        "msl"
+    }
+}
+
+/// Compare the outcome of compiling pipeline i on its own (`other`, by name or in the single-pipeline file) with
+/// result i of the whole file
+fn compare_with_whole(case: &Case, how: &str, index: usize, name: &str, whole: &Pipe, other: &Outcome, report: &mut Report) {
+    match other {
+        Outcome::Ok(v) if v.len() == 1 => match differing_field(whole, &v[0]) {
+            None => report.count(&format!("equal:{}:{}", how, family(case.target))),
+            Some((field, x, y)) => report.violation(
+                &format!("{}-differs:{}:{}", how, field, family(case.target)),
+                &format!(
+                    "{}: pipeline #{} `{}` compiled {} differs in {} from result #{} of the whole file: `{}` vs `{}`",
+                    case.target.name(),
+                    index,
+                    name,
+                    if how == "named" { "by name" } else { "in the file without the other pipelines" },
+                    field,
+                    index,
+                    x.trim().chars().take(160).collect::<String>(),
+                    y.trim().chars().take(160).collect::<String>()
+                ),
+                case.witness(Json::obj().set("pipeline_index", index).set("pipeline", name).set("how", how).set("field", field).set("whole_file_result", whole.observable()).set("alone", v[0].observable())),
+            ),
+        },
+        Outcome::Ok(v) => report.violation(
+            &format!("{}-result-count:{}", how, family(case.target)),
+            &format!("{}: pipeline `{}` compiled {} gives {} results instead of one", case.target.name(), name, how, v.len()),
+            case.witness(Json::obj().set("pipeline_index", index).set("pipeline", name).set("how", how).set("results", v.len())),
+        ),
+        Outcome::Budget { .. } => report.count("skipped:budget"),
+        Outcome::Diag(_) | Outcome::Panic(_) => report.violation(
+            &format!("{}-fails-but-whole-file-compiles:{}:{}", how, other.class(), family(case.target)),
+            &format!("{}: the whole file compiles, but pipeline #{} `{}` compiled {} gives {}", case.target.name(), index, name, how, other.brief()),
+            case.witness(Json::obj().set("pipeline_index", index).set("pipeline", name).set("how", how).set("alone", outcome_json(other))),
+        ),
+    }
+}
+
+/// Observe one file on one target. Returns true when the comparisons were made.
+pub fn examine(text: &str, target: Tgt, origin: &str, report: &mut Report) -> bool {
+    let case = Case { text, target, origin };
+    let blocks = split_pipelines(text);
+    let n = blocks.len();
+    let names: Vec<String> = blocks.iter().map(|b| b.name.clone()).collect();
+    let mut distinct_names: Vec<String> = Vec::new();
+    for nme in &names {
+        if !distinct_names.contains(nme) {
+            distinct_names.push(nme.clone());
+        }
+    }
+    let duplicates = distinct_names.len() != n;
+    let tname = target.name();
+    let run = |t: &str, mode: Mode, report: &mut Report| -> Outcome {
+        report.evaluations += 1;
+        report.count(&format!("compile:{}", match &mode {
+            Mode::All => "all",
+            Mode::Named(_) => "named",
+            Mode::NoPipeline => "no-pipeline",
+        }));
+        rs::compile_text(t, &Opts::new(target, mode))
+    };
+
+    // ---- (e) no-pipeline mode --------------------------------------------------------------
+    let np = run(text, Mode::NoPipeline, report);
+    match &np {
+        Outcome::Ok(v) if v.len() == 1 => {
+            report.count(&format!("no-pipeline-mode:one-result:n={}", n));
+            if !v[0].stages.is_empty() {
+                report.count("no-pipeline-mode:reports-stages");
+            }
+        }
+        Outcome::Ok(v) => report.violation(
+            "no-pipeline-mode-result-count",
+            &format!("{}: no-pipeline mode returned {} results for a file with {} pipelines", tname, v.len(), n),
+            case.witness(Json::obj().set("results", v.len()).set("pipelines", n)),
+        ),
+        Outcome::Diag(d) => {
+            // a backend may reject something in the file; that is not about pipelines
+            report.count(&format!("skipped:no-pipeline-mode-diagnostic:{}:{}", family(target), diag_class(d)));
+        }
+        Outcome::Panic(c) => report.count(&format!("skipped:panic:{}", c.signature())),
+        Outcome::Budget { .. } => report.count("skipped:budget"),
+    }
+
+    // ---- (a) whole file ----------------------------------------------------------------------
+    let all = run(text, Mode::All, report);
+    report.count(&format!("all:{}:{}", all.class(), family(target)));
+
+    // ---- (d) unknown names -------------------------------------------------------------------
+    for u in unknown_names(&names, hash_str(text) ^ target as u64) {
+        let o = run(text, Mode::Named(u.clone()), report);
+        match &o {
+            Outcome::Diag(d) => {
+                report.count("unknown-name:diagnostic");
+                if d.contains("does not contain the pipeline") {
+                    report.count("unknown-name:diagnostic:does-not-contain-the-pipeline");
+                } else {
+                    report.count(&format!("unknown-name:diagnostic:other:{}", diag_class(d)));
+                }
+                if names.iter().any(|nme| nme.starts_with(u.as_str())) {
+                    report.count("unknown-name:is-prefix-of-a-name");
+                }
+                if names.iter().any(|nme| u.starts_with(nme.as_str())) {
+                    report.count("unknown-name:extends-a-name");
+                }
+            }
+            Outcome::Ok(v) => report.violation(
+                "unknown-name-accepted",
+                &format!("{}: asking for pipeline `{}` (defined: {:?}) returned {} results instead of an error", tname, u, names, v.len()),
+                case.witness(Json::obj().set("requested", u.as_str()).set("defined", Json::from(names.clone())).set("outcome", outcome_json(&o))),
+            ),
+            Outcome::Panic(c) => report.violation(
+                "panic:unknown-name",
+                &format!("{}: asking for pipeline `{}` (defined: {:?}) panics at {}: {}", tname, u, names, c.location, c.message),
+                case.witness(Json::obj().set("requested", u.as_str()).set("defined", Json::from(names.clone())).set("outcome", outcome_json(&o))),
+            ),
+            Outcome::Budget { .. } => report.count("skipped:budget"),
+        }
+    }
+
+    // ---- (b), (c): every pipeline by name and in its single-pipeline file -----------------------
+    let named: Vec<Outcome> = distinct_names.iter().map(|nme| run(text, Mode::Named(nme.clone()), report)).collect();
+    let named_of = |i: usize| -> &Outcome {
+        let k = distinct_names.iter().position(|d| *d == names[i]).unwrap();
+        &named[k]
+    };
+    let solo: Vec<Outcome> = (0..n).map(|i| run(&without_others(text, &blocks, Some(i)), Mode::All, report)).collect();
+
+    // ---- duplicate names: only "fails cleanly" and the result count ------------------------------
+    if duplicates {
+        report.count("duplicate-names:files");
+        let mut panics: Vec<String> = Vec::new();
+        if let Outcome::Panic(c) = &all {
+            panics.push(format!("all: {} at {}", c.message, c.location));
+        }
+        for (k, o) in named.iter().enumerate() {
+            if let Outcome::Panic(c) = o {
+                panics.push(format!("name `{}`: {} at {}", distinct_names[k], c.message, c.location));
+            }
+        }
+        if !panics.is_empty() {
+            report.violation(
+                "panic:duplicate-pipeline-name",
+                &format!("{}: a file that defines the pipelines {:?} makes compile() panic ({})", tname, names, panics[0]),
+                case.witness(Json::obj().set("defined", Json::from(names.clone())).set("panics", Json::from(panics.clone()))),
+            );
+        } else {
+            report.count(&format!("duplicate-names:all:{}", all.class()));
+            if let Outcome::Ok(v) = &all {
+                if v.len() != n {
+                    report.violation(
+                        "result-count:duplicate-names",
+                        &format!("{}: {} pipeline definitions, {} results", tname, n, v.len()),
+                        case.witness(Json::obj().set("defined", Json::from(names.clone())).set("results", v.len())),
+                    );
+                }
+            }
+        }
+        return true;
+    }
+
+    // ---- no pipelines ----------------------------------------------------------------------------
+    if n == 0 {
+        match &all {
+            Outcome::Diag(d) => {
+                report.count("no-pipelines:diagnostic");
+                if d.contains("does not contain a single pipeline") {
+                    report.count("no-pipelines:diagnostic:does-not-contain-a-single-pipeline");
+                } else {
+                    report.count(&format!("no-pipelines:diagnostic:other:{}", diag_class(d)));
+                }
+            }
+            Outcome::Ok(v) => report.violation(
+                "no-pipelines-accepted",
+                &format!("{}: a file without pipeline definitions returned {} results instead of an error", tname, v.len()),
+                case.witness(Json::obj().set("outcome", outcome_json(&all))),
+            ),
+            Outcome::Panic(c) => report.violation(
+                "panic:no-pipelines",
+                &format!("{}: a file without pipeline definitions panics at {}: {}", tname, c.location, c.message),
+                case.witness(Json::obj().set("outcome", outcome_json(&all))),
+            ),
+            Outcome::Budget { .. } => report.count("skipped:budget"),
+        }
+        return true;
+    }
+
+    // ---- n >= 1 --------------------------------------------------------------------------------------
+    match &all {
+        Outcome::Ok(v) => {
+            if v.len() != n {
+                report.violation(
+                    &format!("result-count:{}", family(target)),
+                    &format!("{}: {} pipeline definitions {:?}, {} results", tname, n, names, v.len()),
+                    case.witness(Json::obj().set("defined", Json::from(names.clone())).set("results", v.len()).set("outcome", outcome_json(&all))),
+                );
+                return true;
+            }
+            report.count(&format!("all:results={}", n));
+            for i in 0..n {
+                // what the definition itself says about result i
+                let mut want: Vec<String> = blocks[i].stages.iter().map(|(s, f)| format!("{} {:?}", s, numthreads_of(text, f))).collect();
+                let mut got: Vec<String> = v[i].stages.iter().map(|s| format!("{:?} {:?}", s.stage, s.thread_group_size)).collect();
+                want.sort();
+                got.sort();
+                if want != got {
+                    report.violation(
+                        &format!("source-order:stages:{}", family(target)),
+                        &format!("{}: result #{} should be pipeline `{}` with stages {:?} but reports {:?}", tname, i, names[i], want, got),
+                        case.witness(Json::obj().set("pipeline_index", i).set("pipeline", names[i].as_str()).set("expected_stages", Json::from(want)).set("reported_stages", Json::from(got)).set("outcome", outcome_json(&all))),
+                    );
+                } else {
+                    report.count("stages-as-defined");
+                    for (s, _) in &blocks[i].stages {
+                        report.count(&format!("stage:{}", s));
+                    }
+                }
+                compare_with_whole(&case, "named", i, &names[i], &v[i], named_of(i), report);
+                compare_with_whole(&case, "alone", i, &names[i], &v[i], &solo[i], report);
+            }
+        }
+        Outcome::Diag(_) | Outcome::Panic(_) => {
+            // rssl returns the first error of any pipeline: compare by-name with single-pipeline file, and ask that the
+            // failure is explained by a pipeline that fails on its own as well
+            let mut explained = false;
+            let mut same_as_one = false;
+            let whole = all.observable();
+            for i in 0..n {
+                let (a, b) = (named_of(i), &solo[i]);
+                if matches!(a, Outcome::Budget { .. }) || matches!(b, Outcome::Budget { .. }) {
+                    report.count("skipped:budget");
+                    explained = true;
+                    same_as_one = true;
+                    continue;
+                }
+                let equal = match (a, b) {
+                    (Outcome::Ok(x), Outcome::Ok(y)) if x.len() == 1 && y.len() == 1 => match differing_field(&x[0], &y[0]) {
+                        None => true,
+                        Some((field, p, q)) => {
+                            report.violation(
+                                &format!("named-vs-alone-differs:{}:{}", field, family(target)),
+                                &format!("{}: pipeline #{} `{}` by name and in the file without the other pipelines differ in {}: `{}` vs `{}`", tname, i, names[i], field, p.trim().chars().take(160).collect::<String>(), q.trim().chars().take(160).collect::<String>()),
+                                case.witness(Json::obj().set("pipeline_index", i).set("pipeline", names[i].as_str()).set("field", field).set("by_name", x[0].observable()).set("alone", y[0].observable()).set("whole_file", outcome_json(&all))),
+                            );
+                            true
+                        }
+                    },
+                    _ => a.observable() == b.observable(),
+                };
+                if !equal {
+                    report.violation(
+                        &format!("named-vs-alone-outcome:{}-{}:{}", a.class(), b.class(), family(target)),
+                        &format!("{}: pipeline #{} `{}` gives {} by name but {} in the file without the other pipelines", tname, i, names[i], a.brief(), b.brief()),
+                        case.witness(Json::obj().set("pipeline_index", i).set("pipeline", names[i].as_str()).set("by_name", outcome_json(a)).set("alone", outcome_json(b)).set("whole_file", outcome_json(&all))),
+                    );
+                } else {
+                    report.count(&format!("equal:named-vs-alone:{}:{}", a.class(), family(target)));
+                }
+                if !matches!(a, Outcome::Ok(_)) || !matches!(b, Outcome::Ok(_)) {
+                    explained = true;
+                }
+                if a.observable() == whole || b.observable() == whole {
+                    same_as_one = true;
+                }
+            }
+            if !explained {
+                report.violation(
+                    &format!("whole-file-fails-but-every-pipeline-compiles-alone:{}:{}", all.class(), family(target)),
+                    &format!("{}: the whole file gives {} although each of {:?} compiles by name and alone", tname, all.brief(), names),
+                    case.witness(Json::obj().set("defined", Json::from(names.clone())).set("whole_file", outcome_json(&all))),
+                );
+            } else if !same_as_one {
+                report.violation(
+                    &format!("whole-file-failure-is-no-pipelines-failure:{}:{}", all.class(), family(target)),
+                    &format!("{}: the whole file gives {}, which is not what any single pipeline of {:?} gives", tname, all.brief(), names),
+                    case.witness(Json::obj().set("defined", Json::from(names.clone())).set("whole_file", outcome_json(&all)).set("by_name", Json::Arr(named.iter().map(outcome_json).collect()))),
+                );
+            } else {
+                match &all {
+                    Outcome::Diag(d) => report.count(&format!("all:diagnostic-explained-by-a-pipeline:{}:{}", family(target), diag_class(d))),
+                    Outcome::Panic(c) => report.count(&format!("skipped:panic:{}", c.signature())),
+                    _ => {}
+                }
+            }
+        }
+        Outcome::Budget { .. } => report.count("skipped:budget"),
+    }
+    true
+}
+
+fn run(ctx: &Ctx) -> Report {
+    let seed = ctx.seed;
+    let cases = ctx.tier.pick(1500, 30_000);
+    crate::par::run_cases(ctx, cases, |index, report| {
+        let mut rng = Rng::for_case(seed, 0x1701, index);
+        let g = gen::generate(&mut rng, true);
+        let origin = format!("gen::c17_pipelines:{}", index);
+        // the generator and the monitor must agree about what the file defines
+        let blocks = split_pipelines(&g.text);
+        let agree = blocks.len() == g.pipelines.len()
+            && blocks.iter().zip(&g.pipelines).all(|(b, p)| b.name == p.name && b.stages.len() == p.stages.len() && b.stages.iter().zip(&p.stages).all(|(x, y)| x.0 == y.0 && x.1 == y.1));
+        if !agree {
+            report.inconclusive(&format!("case {}: the monitor's reading of the file differs from what the generator wrote", index));
+            return;
+        }
+        for (b, p) in blocks.iter().zip(&g.pipelines) {
+            for (x, y) in b.stages.iter().zip(&p.stages) {
+                if numthreads_of(&g.text, &x.1) != y.2 {
+                    report.inconclusive(&format!("case {}: numthreads of {} read as {:?}, written as {:?}", index, x.1, numthreads_of(&g.text, &x.1), y.2));
+                    return;
+                }
+            }
+        }
+        // front end verdict, once per file (no target specific code in the generated files)
+        match rs::typecheck_text(&g.text) {
+            rs::Front::Ok(_) => report.count("front-end:accepted"),
+            rs::Front::Diag(d) if g.duplicate_names => {
+                // a clean rejection of repeated names is fine; the modes are still observed (none may panic)
+                report.count(&format!("duplicate-names:front-end-rejected:{}", diag_class(&d)));
+            }
+            rs::Front::Diag(d) => {
+                report.count(&format!("skipped:front-end-rejected:{}", diag_class(&d)));
+                return;
+            }
+            rs::Front::Panic(c) => {
+                report.count(&format!("skipped:panic:{}", c.signature()));
+                return;
+            }
+        }
+        let mut compared = false;
+        for target in ALL_TARGETS {
+            compared |= examine(&g.text, target, &origin, report);
+        }
+        if compared {
+            report.distinct(hash_str(&g.text));
+            for f in &g.features {
+                report.count(&format!("feature:{}", f));
+            }
+            if g.pipelines.len() >= 2 {
+                let defaults: Vec<Option<u32>> = g.pipelines.iter().map(|p| p.default_group).collect();
+                if defaults.iter().any(|d| *d != defaults[0]) {
+                    report.count("feature:pipelines-with-different-DefaultBindGroup");
+                }
+            }
+            if report.want_sample() && index % 211 == 3 {
+                report.sample(Json::obj().set("origin", origin.as_str()).set("pipelines", Json::from(g.pipelines.iter().map(|p| format!("{} ({})", p.name, p.kind.name())).collect::<Vec<_>>())).set("text", g.text.as_str()));
+            }
+        }
+    })
+}
+
+fn replay(_ctx: &Ctx, witness: &Json) -> Report {
+    let mut report = Report::new();
+    let Some(text) = witness.get_str("text") else {
+        report.inconclusive("witness has no text");
+        return report;
+    };
+    let origin = witness.get_str("origin").unwrap_or("replay");
+    let targets: Vec<Tgt> = match witness.get_str("target") {
+        Some(t) => vec![Tgt::from_name(t)],
+        None => ALL_TARGETS.to_vec(),
+    };
+    for t in targets {
+        examine(text, t, origin, &mut report);
+    }
+    if std::env::var("VERIF_C17_VERBOSE").is_ok() {
+        for (k, v) in &report.counters {
+            println!("  {} = {}", k, v);
+        }
+    }
+    report
+}
